@@ -1,7 +1,7 @@
 (* ContDeqModel.v — proofs about the XalanDeque model: all blocks but the last are full, no block in
    the index is empty, free blocks are empty; hence size() = number of elements, operator[] (index /
-   blockSize, index % blockSize) addresses the right element, and every op sequence on deques of EQUAL
-   block size refines the list specification.  swap between different block sizes breaks it. *)
+   blockSize, index % blockSize) addresses the right element, and every op sequence on deques of any
+   block sizes refines the list specification (swap carries the block size with the blocks). *)
 From Coq Require Import List Arith Bool Lia.
 Require Import XV.GenCont XV.ContVecDefs XV.ContVecModel XV.ContMapDefs XV.ContDeqDefs.
 Import ListNotations.
@@ -276,21 +276,21 @@ Qed.
 (* ---------------------------------------------------------------------------------------------- *)
 Definition drel (s : dstate) (t : lstate) : Prop :=
   flat (dreg0 s) = l0 t /\ flat (dreg1 s) = l1 t /\ dcur s = lcur t.
-Definition dsinv (s : dstate) : Prop := dinv (dreg0 s) /\ dinv (dreg1 s) /\ q_bs (dreg0 s) = q_bs (dreg1 s).
+Definition dsinv (s : dstate) : Prop := dinv (dreg0 s) /\ dinv (dreg1 s).
 
 
-Lemma set_cur_d_ok : forall s t d l, drel s t -> dsinv s -> dinv d -> q_bs d = q_bs (cur_d s) -> flat d = l ->
+Lemma set_cur_d_ok : forall s t d l, drel s t -> dsinv s -> dinv d -> flat d = l ->
   drel (set_cur_d s d) (set_cur_l t l) /\ dsinv (set_cur_d s d).
 Proof.
-  intros s t d l (A & B & C) (I0 & I1 & E) I Bs F. unfold set_cur_d, set_cur_l, drel, dsinv, cur_d in *. rewrite C in *.
-  destruct (lcur t); simpl; (split; [auto|]); (split; [assumption|]); (split; [assumption|]); congruence.
+  intros s t d l (A & B & C) (I0 & I1) I F. unfold set_cur_d, set_cur_l, drel, dsinv in *. rewrite C in *.
+  destruct (lcur t); simpl; (split; [auto|]); split; assumption.
 Qed.
 
-Lemma set_oth_d_ok : forall s t d l, drel s t -> dsinv s -> dinv d -> q_bs d = q_bs (cur_d s) -> flat d = l ->
+Lemma set_oth_d_ok : forall s t d l, drel s t -> dsinv s -> dinv d -> flat d = l ->
   drel (set_oth_d s d) (set_oth_l t l) /\ dsinv (set_oth_d s d).
 Proof.
-  intros s t d l (A & B & C) (I0 & I1 & E) I Bs F. unfold set_oth_d, set_oth_l, drel, dsinv, cur_d in *. rewrite C in *.
-  destruct (lcur t); simpl; (split; [auto|]); (split; [assumption|]); (split; [assumption|]); congruence.
+  intros s t d l (A & B & C) (I0 & I1) I F. unfold set_oth_d, set_oth_l, drel, dsinv in *. rewrite C in *.
+  destruct (lcur t); simpl; (split; [auto|]); split; assumption.
 Qed.
 
 (* operator[] write *)
@@ -330,7 +330,7 @@ Proof.
 Qed.
 
 Lemma set_block_ok : forall d i x, dinv d -> i < length (flat d) ->
-  dinv (set_block d i x) /\ flat (set_block d i x) = set_nth i x (flat d) /\ q_bs (set_block d i x) = q_bs d.
+  dinv (set_block d i x) /\ flat (set_block d i x) = set_nth i x (flat d).
 Proof.
   intros d i x I L. destruct (deq_cases d) as [E|(F & b & E)].
   { unfold flat in L. rewrite E in L. simpl in L. lia. }
@@ -338,7 +338,7 @@ Proof.
   destruct (inv_snoc bs F b fr I) as (B & Fu & L1 & L2 & Fr).
   rewrite flat_snoc', app_length, (concat_full_length bs F Fu) in L. fold (vsize b) in L.
   destruct (set_blocks_flat bs F b i x B Fu L2 L) as (E1 & E2). cbv zeta in E1, E2.
-  unfold set_block, flat. cbn [q_bs q_blocks q_free]. split; [|split; [exact E1 | reflexivity]].
+  unfold set_block, flat. cbn [q_bs q_blocks q_free]. split; [|exact E1].
   destruct E2 as [[E2 E3]|[E2 E3]]; rewrite E3.
   - apply mk_inv_snoc; auto. apply Forall_forall. intros y Hy.
     assert (G : forall (l : list vec) k, Forall (fun z => vsize z = bs) l ->
@@ -359,9 +359,8 @@ Proof.
   intros s t o R I.
   assert (C : flat (cur_d s) = cur_l t) by (destruct R as (A & B & D); unfold cur_d, cur_l; rewrite D; destruct (lcur t); assumption).
   assert (O : flat (oth_d s) = oth_l t) by (destruct R as (A & B & D); unfold oth_d, oth_l; rewrite D; destruct (lcur t); assumption).
-  assert (IC : dinv (cur_d s)) by (destruct I as (A & B & _); unfold cur_d; destruct (dcur s); assumption).
-  assert (IO : dinv (oth_d s)) by (destruct I as (A & B & _); unfold oth_d; destruct (dcur s); assumption).
-  assert (BO : q_bs (oth_d s) = q_bs (cur_d s)) by (destruct I as (_ & _ & E); unfold oth_d, cur_d; destruct (dcur s); congruence).
+  assert (IC : dinv (cur_d s)) by (destruct I as (A & B); unfold cur_d; destruct (dcur s); assumption).
+  assert (IO : dinv (oth_d s)) by (destruct I as (A & B); unfold oth_d; destruct (dcur s); assumption).
   assert (N : dsize (cur_d s) = length (cur_l t)) by (rewrite (dsize_flat _ IC), C; reflexivity).
   destruct o; unfold dstep, dlstep; rewrite ?N.
   - destruct (dpush_ok (cur_d s) x IC) as (P & Q & S). split; [reflexivity|]. apply set_cur_d_ok; auto. rewrite Q, C. reflexivity.
@@ -374,7 +373,7 @@ Proof.
   - destruct (i <? length (cur_l t)) eqn:E; [|exact Logic.I]. apply Nat.ltb_lt in E. split; [|auto].
     rewrite (dindex_flat _ _ IC) by (rewrite C; assumption). rewrite C. reflexivity.
   - destruct (i <? length (cur_l t)) eqn:E; [|exact Logic.I]. apply Nat.ltb_lt in E.
-    destruct (set_block_ok (cur_d s) i x IC) as (P & Q & S); [rewrite C; assumption|].
+    destruct (set_block_ok (cur_d s) i x IC) as (P & Q); [rewrite C; assumption|].
     split; [reflexivity|]. apply set_cur_d_ok; auto. rewrite Q, C. reflexivity.
   - destruct (dresize_ok (cur_d s) n IC) as (P & Q & S). split; [reflexivity|]. apply set_cur_d_ok; auto. rewrite Q, C. reflexivity.
   - destruct (dclear_ok (cur_d s) IC) as (P & Q & S). split; [reflexivity|]. apply set_cur_d_ok; auto.
@@ -385,12 +384,11 @@ Proof.
     split; [reflexivity|]. apply set_oth_d_ok; auto. rewrite Q, (delems_flat _ IC), C. reflexivity.
   - unfold dassign. destruct (dclear_ok (cur_d s) IC) as (P0 & Q0 & S0).
     destruct (dpush_all_ok (delems (oth_d s)) (dclear (cur_d s)) P0) as (P & Q & S).
-    split; [reflexivity|]. apply set_cur_d_ok; auto; try congruence. rewrite Q, Q0, (delems_flat _ IO), O. reflexivity.
+    split; [reflexivity|]. apply set_cur_d_ok; auto. rewrite Q, Q0, (delems_flat _ IO), O. reflexivity.
   - auto.
-  - destruct R as (A & B & D). destruct I as (I0 & I1 & E). split; [reflexivity|]. unfold drel, dsinv, dswap_into. simpl.
-    destruct I0 as (a0 & a1 & a2 & a3). destruct I1 as (b0 & b1 & b2 & b3).
-    repeat split; auto; try (rewrite E; assumption); try (rewrite <- E; assumption).
-  - destruct R as (A & B & D). destruct I as (I0 & I1 & E). split; [reflexivity|]. unfold drel, dsinv. simpl. auto.
+  - destruct R as (A & B & D). destruct I as (I0 & I1). split; [reflexivity|]. unfold drel, dsinv, dswap_into. simpl.
+    destruct (dreg0 s), (dreg1 s). simpl in *. auto.
+  - destruct R as (A & B & D). destruct I as (I0 & I1). split; [reflexivity|]. unfold drel, dsinv. simpl. auto.
   - unfold dctor. destruct (dpush_n_ok n 0 (new_deq (q_bs (cur_d s)))) as (P & Q & S).
     { apply new_deq_ok. destruct IC. assumption. }
     split; [reflexivity|]. apply set_cur_d_ok; auto.
@@ -404,7 +402,7 @@ Proof.
   destruct (dstep s a) as [[s' r]|]; destruct (dlstep t a) as [[t' r']|]; try contradiction.
   - destruct H as (-> & R' & I'). rewrite (IHops s' t' R' I'). f_equal. f_equal.
     assert (C : flat (cur_d s') = cur_l t') by (destruct R' as (A & B & D); unfold cur_d, cur_l; rewrite D; destruct (lcur t'); assumption).
-    assert (IC : dinv (cur_d s')) by (destruct I' as (A & B & _); unfold cur_d; destruct (dcur s'); assumption).
+    assert (IC : dinv (cur_d s')) by (destruct I' as (A & B); unfold cur_d; destruct (dcur s'); assumption).
     rewrite (delems_flat _ IC), (dsize_flat _ IC), C. f_equal. f_equal.
     unfold dempty. destruct (deq_cases (cur_d s')) as [E|(F & b & E)].
     + rewrite E. unfold flat in C. rewrite E in C. simpl in C. rewrite <- C. reflexivity.
